@@ -496,7 +496,6 @@ func specRpqR(q *receivePayloadQueue, o uint32) bool {
 //@   tags C05
 //@   safety C03
 
-
 //@ func receivePayloadQueue.getGapAckBlocks
 //@   requires rpqInv(q)
 //@   requires rpqCount(q)
